@@ -2,6 +2,7 @@ package props
 
 import (
 	"fmt"
+	"github.com/gcash/bchd/chaincfg"
 	"math/big"
 	"reflect"
 	"strings"
@@ -663,6 +664,75 @@ func c02bitAliasCase(c *vf.Ctx, i int) {
 }
 
 // ---------------------------------------------------------------------------
+// stream "compensated": strings that are only valid if the decoder makes a
+// specific mistake, with the checksum computed to compensate for it:
+// (a) a character outside the alphabet at payload position j, checksum
+// computed as if that character decoded to symbol value w (255 = byte(-1), 0,
+// 31, the character's low five bits); (b) caller-defined networks with long
+// prefixes, checksum computed over a truncated prefix.
+
+func c02compensatedCase(c *vf.Ctx, i int) {
+	r := c.R
+	kind := [][2]int{{0x00, 20}, {0x08, 20}, {0x0b, 32}}[i%3]
+	sym := ref.Pack8to5(append([]byte{byte(kind[0])}, randHash(r, kind[1])...))
+	if i%2 == 0 {
+		net := allNets[(i/6)%len(allNets)]
+		prefix := net.P.CashAddressPrefix
+		for k := 0; k < 6; k++ {
+			j := r.Intn(len(sym))
+			foreign := "bio1BIO"[r.Intn(7)]
+			for _, w := range []byte{255, 0, 31, foreign & 31, byte(r.Intn(256))} {
+				mod := append([]byte{}, sym...)
+				mod[j] = w
+				ck := ref.CashChecksum(prefix, mod)
+				var sb strings.Builder
+				for x, v := range mod {
+					if x == j {
+						sb.WriteByte(foreign)
+					} else {
+						sb.WriteByte(ref.CashCharset[v&31])
+					}
+				}
+				for _, v := range ck {
+					sb.WriteByte(ref.CashCharset[v])
+				}
+				body := sb.String()
+				if foreign >= 'A' && foreign <= 'Z' {
+					body = asciiUpper(body)
+				}
+				c.Inc("compensated/foreign-character-strings")
+				c02verify(c, "compensated-foreign", fmt.Sprintf("compensated/foreign-as-%d", w), "bare", body, net)
+				c02verify(c, "compensated-foreign", fmt.Sprintf("compensated/foreign-as-%d", w), "prefixed", prefix+":"+body, net)
+			}
+		}
+		c.Nontrivial(vf.Mix(0xc0a, uint64(i), vf.HashBytes(sym)))
+		return
+	}
+	// (b) long prefixes
+	plen := []int{31, 32, 33, 34, 40, 64, 83}[(i/2)%7]
+	pb := make([]byte, plen)
+	for k := range pb {
+		pb[k] = byte('a' + r.Intn(26))
+	}
+	prefix := string(pb)
+	net := netInfo{fmt.Sprintf("custom-prefix-%d", plen), &chaincfg.Params{CashAddressPrefix: prefix, SlpAddressPrefix: "slp" + prefix[:plen-3]}}
+	good := ref.CashEncodeSymbols(prefix, sym)
+	c.Inc("compensated/long-prefix-nets")
+	c.Nontrivial(vf.Mix(0xc0b, vf.HashString(prefix), vf.HashBytes(sym)))
+	c02verify(c, "long-prefix", "long-prefix/valid", "bare", good, net)
+	c02verify(c, "long-prefix", "long-prefix/valid", "prefixed", prefix+":"+good, net)
+	for _, cut := range []int{32, 31, 16, plen - 1, 8} {
+		if cut >= plen || cut < 1 {
+			continue
+		}
+		bad := ref.CashEncodeSymbols(prefix[:cut], sym)
+		c02verify(c, "long-prefix", fmt.Sprintf("long-prefix/checksum-over-first-%d-letters", cut), "bare", bad, net)
+		c02verify(c, "long-prefix", fmt.Sprintf("long-prefix/checksum-over-first-%d-letters", cut), "prefixed", prefix+":"+bad, net)
+		c02verifyCash(c, "long-prefix/truncated-checksum", prefix+":"+bad)
+	}
+}
+
+// ---------------------------------------------------------------------------
 // stream "legacy": Base58Check over all version bytes x payload lengths 0..40
 
 const c02legacyEnum = 256 * 41
@@ -924,6 +994,7 @@ func init() {
 		ID:    "C02",
 		Title: "Address decoding is strict, canonical and network-separating",
 		Rule: "stream cash: every (version byte 0..255, payload length 0..65) with zero / non-zero padding bits and an extra symbol, reference checksum computed for the requested net's cash and SLP prefix, other nets' prefixes, unknown and empty prefixes, rendered bare / prefixed in lower, UPPER and mixed case and with a swapped prefix, then random symbol lists; " +
+			"stream compensated: strings that are valid only if the decoder errs in a specific way, with the checksum computed to compensate (a foreign character decoded as symbol 255/0/31/low bits; a long caller-defined prefix truncated before the checksum); " +
 			"stream bit-alias: every character of valid cash / legacy / public-key strings replaced by the bytes that differ from it only in bits 4..7, plus random byte values; " +
 			"stream confusables: valid strings with one or all letters replaced by non-ASCII look-alikes (U+212A, U+017F, U+0130, ...) and with whitespace / NUL / BOM decorations; " +
 			"stream legacy: Base58Check over every version byte x payload length 0..40, plus corrupted checksums and decorations; " +
@@ -940,6 +1011,7 @@ func init() {
 		Streams: []*vf.Stream{
 			{Name: "cash", N: func(t vf.Tier) int { return c02cashEnum*t.Sz(1, 4) + t.Sz(16000, 200000) }, Run: c02cashCase},
 			{Name: "confusables", N: func(t vf.Tier) int { return t.Sz(40000, 400000) }, Run: c02confusableCase},
+			{Name: "compensated", N: func(t vf.Tier) int { return t.Sz(6000, 120000) }, Run: c02compensatedCase},
 			{Name: "bit-alias", N: func(t vf.Tier) int { return t.Sz(3000, 60000) }, Run: c02bitAliasCase},
 			{Name: "legacy", N: func(t vf.Tier) int { return c02legacyEnum + t.Sz(10000, 400000) }, Run: c02legacyCase},
 			{Name: "pubkeys", N: func(t vf.Tier) int { return 64 + t.Sz(600, 8000) }, Run: c02pubkeyCase},
